@@ -94,11 +94,16 @@ def check(c):
     for n in c.find(sc, 'self.spawn_func(itask, output)'):
         c.guard('C29.spawn', n, [AnyOf('!itask.transient', 'forced')], sc,
                 what='transient proxies spawn children only when forced;')
-        par = c.idx.parent[id(c.idx.stmt_of(n))]
-        for case in ('forced', '!itask.transient'):
-            c.ob('C29.spawn', c.key(n, sc) + f' whenever {case}',
-                 isinstance(par, ast.If) and c.case_covered(
-                     par.test, [case], n), c.where(n, sc), '')
+        # exactly: reached iff (not transient or forced) -- as an enclosing
+        # `if`, or as an early return on the opposite test
+        from rules._shared import reach_table
+        tab = reach_table(c, n, {'t': 'itask.transient', 'f': 'forced'}, sc)
+        want = {(t, f): (not t) or f for t in (False, True)
+                for f in (False, True)}
+        c.ob('C29.spawn', c.key(n, sc) + ' whenever forced or not transient '
+             '(and only then)', tab == want, c.where(n, sc),
+             'reached iff not transient or forced' if tab == want else
+             f'reachability over (transient, forced): {tab}')
     gen = c.find(pm, 'itask.state.outputs.set_message_complete(task_output, '
                  'forced)')
     c.exactly('C29.spawn', 'set_message_complete(task_output, forced)',
